@@ -388,3 +388,133 @@ func runDispatch(p *Prog, r *Report) {
 	}
 	r.Clauses = append(r.Clauses, "E7 every schema type implementing schema.Constraint has a case in newExpression, which never returns nil")
 }
+
+// runCapabilities (E7): decoder expression types whose constraint can hold a reference or
+// an arbitrary expression must implement ReferenceOriginsExpression; type-aware container
+// types must implement ReferenceTargetsExpression. Both interfaces are consulted by dynamic
+// type assertion, so deleting a method still compiles.
+func runCapabilities(p *Prog, r *Report) {
+	var dec *types.Package
+	for _, pk := range p.Pkgs {
+		if strings.HasSuffix(pk.PkgPath, "hcl-lang/decoder") {
+			dec = pk.Types
+		}
+	}
+	if dec == nil {
+		return
+	}
+	lookupIface := func(name string) *types.Interface {
+		if tn, ok := dec.Scope().Lookup(name).(*types.TypeName); ok {
+			if i, ok := tn.Type().Underlying().(*types.Interface); ok {
+				return i
+			}
+		}
+		return nil
+	}
+	origins, targets := lookupIface("ReferenceOriginsExpression"), lookupIface("ReferenceTargetsExpression")
+	if origins == nil || targets == nil {
+		r.Add("E7.capability", "-", "interfaces", "-", Undecided, "capability interfaces not found in package decoder", false)
+		return
+	}
+	wantOrigins := []string{"Any", "Reference", "List", "Set", "Tuple", "Map", "Object", "OneOf", "functionExpr"}
+	wantTargets := []string{"Any", "LiteralType", "Reference", "List", "Set", "Tuple", "Map", "Object", "OneOf"}
+	check := func(names []string, iface *types.Interface, what string) {
+		for _, n := range names {
+			tn, ok := dec.Scope().Lookup(n).(*types.TypeName)
+			if !ok {
+				r.Add("E7.capability", "decoder."+n, what, "-", Violated, "decoder type "+n+" not found", true)
+				continue
+			}
+			if types.Implements(tn.Type(), iface) || types.Implements(types.NewPointer(tn.Type()), iface) {
+				r.Add("E7.capability", "decoder."+n, what, "-", OK, "implements the capability interface", false)
+			} else {
+				r.Add("E7.capability", "decoder."+n, what, "-", Violated, "decoder type "+n+" no longer implements "+what+": the collector's type assertion silently skips every value of this constraint kind", true)
+			}
+		}
+	}
+	check(wantOrigins, origins, "ReferenceOriginsExpression")
+	check(wantTargets, targets, "ReferenceTargetsExpression")
+	r.Clauses = append(r.Clauses, "E7 every decoder expression type whose constraint can hold references implements ReferenceOriginsExpression; every type-aware container implements ReferenceTargetsExpression")
+}
+
+// runChildCoverage (E7): in the per-feature functions over hclsyntax expression kinds (for
+// origins, tokens, hover, completion in decoder.Any), every Expression-typed field of the
+// hclsyntax node handled by the function is read in it (or the function falls back to
+// expr.Variables()).
+func runChildCoverage(feature string, known map[string]string) func(p *Prog, r *Report) {
+	return func(p *Prog, r *Report) {
+		n := 0
+		for _, fn := range p.Funcs {
+			if fn.Obj == nil || !strings.HasSuffix(fn.Pkg.PkgPath, "hcl-lang/decoder") {
+				continue
+			}
+			name := fn.Obj.Name()
+			if !strings.HasPrefix(name, feature) || !strings.HasSuffix(name, "Expr") && !strings.HasSuffix(name, "ExprAtPos") {
+				continue
+			}
+			info := fn.Info()
+			// node types asserted in this function: eType, ok := a.expr.(*hclsyntax.X)
+			ast.Inspect(fn.Body, func(x ast.Node) bool {
+				var tExpr ast.Expr
+				switch v := x.(type) {
+				case *ast.TypeAssertExpr:
+					tExpr = v.Type
+				case *ast.CaseClause:
+					if len(v.List) == 1 {
+						if _, isTS := p.Parent(p.Parent(v)).(*ast.TypeSwitchStmt); isTS {
+							tExpr = v.List[0]
+						}
+					}
+				}
+				if tExpr == nil {
+					return true
+				}
+				tt := info.TypeOf(tExpr)
+				pt, ok := tt.(*types.Pointer)
+				if !ok {
+					return true
+				}
+				nt := namedOf(pt)
+				if nt == nil || nt.Obj().Pkg() == nil || !strings.HasSuffix(nt.Obj().Pkg().Path(), "hclsyntax") {
+					return true
+				}
+				st, ok := nt.Underlying().(*types.Struct)
+				if !ok {
+					return true
+				}
+				scope := ast.Node(fn.Body)
+				if cc, ok := x.(*ast.CaseClause); ok {
+					scope = cc
+				}
+				for i := 0; i < st.NumFields(); i++ {
+					f := st.Field(i)
+					ft := f.Type().String()
+					if !strings.HasSuffix(ft, "hclsyntax.Expression") {
+						continue
+					}
+					n++
+					read := false
+					ast.Inspect(scope, func(y ast.Node) bool {
+						if sel, ok := y.(*ast.SelectorExpr); ok && sel.Sel.Name == f.Name() {
+							if xt := info.TypeOf(sel.X); xt != nil && types.Identical(xt, tt) {
+								read = true
+							}
+						}
+						return true
+					})
+					key := nt.Obj().Name() + "." + f.Name()
+					if read {
+						r.Add("E7.child-coverage", fn.Name, key, p.Pos(x), OK, "child expression is visited", false)
+					} else if why, ok := known[fn.Obj.Name()+"|"+key]; ok {
+						r.Add("E7.child-coverage", fn.Name, key, p.Pos(x), Excepted, why, true)
+					} else {
+						r.Add("E7.child-coverage", fn.Name, key, p.Pos(x), Violated, "child expression "+key+" of the handled node is never visited by this "+feature+" function: references/tokens written there are lost", true)
+					}
+				}
+				return true
+			})
+		}
+		r.ExpectMin("E7.child-fields-"+feature, n, 5)
+		r.Clauses = append(r.Clauses, "E7 every Expression-typed field of the hclsyntax node handled by a "+feature+"…Expr function is visited in it")
+	}
+}
